@@ -53,16 +53,18 @@ DATA_BASES = ['s.lit', 'l.lit', 'l.empty', 'p.lit']
 DATA_LINK1 = ['s.ref', 's.pre', 'l.ref', 'l.litref', 'l.instr', 'p.comp', 'p.rel', 'p.pre']
 # quick: chains of two links - the data types and every shape with a "made up of just strings" slot
 QUICK_CHAIN = DATA_LINK1 + ['i.int', 'c.name', 'o.name', 'x.ref', 'x.str']
-CTXS = ['data', 'comp', 'relsym', 'pre', 'int', 'range', 'env', 'pname', 'fname', 'tm', 'tt', 'pgm', 'lm', 'im', 'fc', 'fm',
-        'fsm', 'fs', 'ts']
+CTXS = ['data', 'comp', 'relsym', 'pre', 'int', 'range', 'env', 'pname', 'fname', 'tm', 'tt', 'pgm', 'lm', 'im',
+        'fc', 'fm', 'fsm', 'fs', 'ts']
 
 CONSTANTS = {
-    'quick': dict(Fams=['dupb', 'direct', 'bdirect', 'link1', 'blink', 'link2', 'chain2', 'order2', 'order3'],
+    'quick': dict(Fams=['dupb', 'direct', 'bdirect', 'link1', 'blink', 'link2', 'chain2', 'chain3', 'order2', 'order3'],
                   TypePhases=['setup'], DeepPhases=['setup'], ExtraUsePhases=['act'],
                   OrderPhases2=ALL_PHASES, OrderPhases3=['setup', 'act', 'assert'], OrderPhases4=[],
                   BaseShapes=BASES, Link1Shapes=LINK1, Link2Shapes=LINK2,
                   Link2Bases=DATA_BASES + ['m.lit', 't.lit', 'x.lit'],
-                  ChainBases=DATA_BASES, ChainShapes=QUICK_CHAIN, Chain3Bases=[], Chain3Shapes=[], Ctxs=CTXS),
+                  ChainBases=DATA_BASES, ChainShapes=QUICK_CHAIN,
+                  Chain3Bases=['s.lit', 'l.lit', 'p.lit'], Chain3Shapes=['s.ref', 's.pre'],   # (strings 3 links deep)
+                  Ctxs=CTXS),
     'thorough': dict(Fams=['dupb', 'direct', 'bdirect', 'link1', 'blink', 'link2', 'chain2', 'chain3', 'order2',
                            'order3', 'order4'],
                      TypePhases=INSTR_PHASES, DeepPhases=['setup', 'assert'], ExtraUsePhases=['act', 'cleanup'],
@@ -72,7 +74,8 @@ CONSTANTS = {
     # random behaviours beyond the exhaustive bound: TLC -simulate on the family "rand"
     'simulate': dict(Fams=['rand'], TypePhases=['setup'], DeepPhases=['setup'], ExtraUsePhases=[],
                      OrderPhases2=[], OrderPhases3=[], OrderPhases4=[], BaseShapes=BASES, Link1Shapes=LINK1,
-                     Link2Shapes=LINK2, Link2Bases=[], ChainBases=[], ChainShapes=[], Chain3Bases=[], Chain3Shapes=[], Ctxs=CTXS),
+                     Link2Shapes=LINK2, Link2Bases=[], ChainBases=[], ChainShapes=[], Chain3Bases=[],
+                     Chain3Shapes=[], Ctxs=CTXS),
 }
 # the model's own negative controls: with a named deviation switched on TLC must refute the named clause
 DEVIATIONS = [('FirstRefOnly', 'TypeCheckedTransitively', ['link2']),
@@ -207,9 +210,8 @@ def exec_case(task, cd):
     from harness import inproc
     probe = os.path.join(cd.home, 'probe.sh')
     text, where = concretize(task, probe)
-    cd.write({'c.case': text, 'probe.sh': PROBE_TEXT.replace('{OUT}', cd.out), 'lines.txt': ''.join(c + '\n' for c in U)},
-             mode={'probe.sh': 0o755})
-    os.chmod(probe, 0o755)
+    cd.write({'c.case': text, 'probe.sh': PROBE_TEXT.replace('{OUT}', cd.out),
+              'lines.txt': ''.join(c + '\n' for c in U)}, mode={'probe.sh': 0o755})
     bin_dir = os.path.join(cd.home, 'bin')
     os.makedirs(bin_dir)
     for o in task['obs']:
@@ -309,7 +311,8 @@ def judge(task, o):
     tree, out = expected_world(task, o['sds'])
     if o['out'] != out:
         ks = sorted(k for k in set(out) | set(o['out']) if out.get(k) != o['out'].get(k))
-        return 'SubstitutedFaithfully: argv of %s is %r, specification %r' % (ks[0], o['out'].get(ks[0]), out.get(ks[0]))
+        return 'SubstitutedFaithfully: argv of %s is %r, specification %r' % (ks[0], o['out'].get(ks[0]),
+                                                                              out.get(ks[0]))
     if o['tree'] != tree:
         ks = sorted(k for k in set(tree) | set(o['tree']) if tree.get(k) != o['tree'].get(k))
         return 'SubstitutedFaithfully: sandbox entry %s is %r, specification %r' % (ks[0], o['tree'].get(ks[0]),
@@ -400,8 +403,8 @@ def negative_controls(ctx, tasks):
             break
         t, o = tasks[j], ideal_observation(tasks[j])
         if judge(t, o) is not None:
-            raise core.MachineryFailure('the comparison rejects the observation built from the prediction itself: %s / %s'
-                                        % (judge(t, o), t['key']))
+            raise core.MachineryFailure('the comparison rejects the observation built from the prediction itself: '
+                                        '%s / %s' % (judge(t, o), t['key']))
         passed = t['outcome'] == 'PASS'
         m = rnd.randrange(9)
         if per_kind.get(m, 0) >= 80:
@@ -522,8 +525,8 @@ def run(ctx):
               and t['prog'][2]['shape'] == 's.two' and t['prog'][1]['type'] == 'list'][:1]
              + [j for j, t in enumerate(tasks) if t['fam'] == 'link2' and t['outcome'] != 'PASS'
                 and t['bad']['i'] == 4][:1]
-             + [j for j, t in enumerate(tasks) if t['fam'].startswith('order') and len(t['prog']) == 3
-                and t['outcome'] != 'PASS' and any(i['ph'] == 'act' for i in t['prog'])][:1]
+             + [j for j, t in enumerate(tasks) if t['fam'].startswith('order') and t['outcome'] != 'PASS'
+                and [i['ph'] + i['op'] for i in t['prog']] == ['assertdef', 'actuse', 'setupdef']][:1]
              + rnd.sample([j for j, t in enumerate(tasks) if t['fam'] == 'chain2' and t['outcome'] == 'PASS'], 2))
     for j in picks:
         t, o = tasks[j], obs[j]
